@@ -96,6 +96,7 @@ class C17(core.Check):
     assumptions = ('the metamorphic class excludes cuts where pasting and including legitimately differ (zone reset at include '
                    'start, fresh file scope, fresh local region)',)
     chunk = 600
+    no_image_reject = lambda self, c: c['meta'].get('kind') == 'REJECT'
     required_buckets = {b: 3 for b in ['nesting:1', 'nesting:2', 'nesting:3', 'dirs:1', 'dirs:2', 'dirs:3', 'class:metamorphic',
                                        'class:zone-region-continuation', 'class:file-label-isolation',
                                        'neg:included-twice', 'neg:transitively-twice', 'neg:self-include', 'neg:missing-file',
